@@ -58,7 +58,12 @@ impl<F> Stream<F> {
 
     fn flush_changes(&mut self) -> io::Result<()> {
         if let Some(flusher) = self.flusher.take() {
-            flusher.flush_changes(self)?;
+            if let Err(err) = flusher.flush_changes(self) {
+                // The buffered data is still unwritten, so stay dirty; a
+                // later flush must retry rather than report success.
+                self.flusher = Some(flusher);
+                return Err(err);
+            }
         }
         Ok(())
     }
